@@ -380,7 +380,7 @@ func runScenario(cfg hx.Config, meta *hx.Meta, r *hx.Rand, sc *scenario, obs *st
 	for i := range texts {
 		texts[i].WriteString("package main\n\n")
 	}
-	texts[0].WriteString("type S struct{ A int }\n\n")
+	texts[0].WriteString(preamble + "\n")
 	for _, g := range sc.groups {
 		fmt.Fprintf(&texts[g.file[0]], "type K%d int\n", g.sites[0].kID())
 		for j, s := range g.sites {
@@ -426,14 +426,14 @@ func runScenario(cfg hx.Config, meta *hx.Meta, r *hx.Rand, sc *scenario, obs *st
 
 	// ---- every group on its own: its sites as they now read, and the derived functions they call ----
 	var decl, sites, drv strings.Builder
-	decl.WriteString("package main\n\ntype S struct{ A int }\n\n")
+	decl.WriteString("package main\n\n" + preamble + "\n")
 	sites.WriteString("package main\n\n")
 	drv.WriteString(driverHeader)
 	derived := map[string]bool{}
 	var derivedOrder []string
 	nill := 0
 	for _, grp := range sc.groups {
-		gdecls := fmt.Sprintf("type S struct{ A int }\ntype K%d int\n", grp.sites[0].kID())
+		gdecls := preamble + fmt.Sprintf("type K%d int\n", grp.sites[0].kID())
 		var chunks, names []string
 		seen := map[string]bool{}
 		for _, s := range grp.sites {
